@@ -290,6 +290,55 @@ def run_C18(ctx, model_available=True):
         if i % 9 == 0:
             mgroups.append(("Gbig", ("count", rng.choice([8, 12]))))
         cfg = build_cfg(mgroups, agroups, access)
+        if i % 8 == 3:
+            # colliding names: two groups writing the same `prefix`, a single entity named like a counted one, or two
+            # sessions of one name -- the registry must refuse (unique names), never hold two entities of one name
+            ccfg = copy.deepcopy(cfg)
+            kind = rng.choice(["market", "agent", "session", "market-single"])
+            base_m = {"class": "Market", "tickSize": 1.0, "marketPrice": 100.0}
+            if kind == "market":
+                ccfg["P1"] = dict(base_m, numMarkets=rng.choice([2, 3]), prefix="Q")
+                ccfg["P2"] = dict(base_m, numMarkets=2, prefix="Q")
+                ccfg["simulation"]["markets"] += ["P1", "P2"]
+            elif kind == "market-single":
+                ccfg["P1"] = dict(base_m, numMarkets=2)
+                ccfg["P2"] = dict(base_m, prefix="P1-1")
+                ccfg["simulation"]["markets"] += ["P1", "P2"] if rng.random() < 0.5 else ["P2", "P1"]
+            elif kind == "agent":
+                a0 = copy.deepcopy(ccfg[ccfg["simulation"]["agents"][0]])
+                while "extends" in a0:
+                    a0 = copy.deepcopy(ccfg[a0["extends"]])
+                for k_ in ("from", "to", "numAgents"):
+                    a0.pop(k_, None)
+                ccfg["AP1"] = dict(a0, numAgents=2, prefix="Q")
+                ccfg["AP2"] = dict(a0, numAgents=rng.choice([2, 4]), prefix="Q")
+                ccfg["simulation"]["agents"] += ["AP1", "AP2"]
+            else:
+                ccfg["simulation"]["sessions"] = ccfg["simulation"]["sessions"] + [dict(ccfg["simulation"]["sessions"][0])]
+            cinp = {"kind": "setup-collision", "config": ccfg, "colliding": kind}
+            crunner = SequentialRunner(settings=copy.deepcopy(ccfg), prng=random.Random(rng.randint(0, 10 ** 6)))
+            checks += 1
+            dist["name_collisions"] = dist.get("name_collisions", 0) + 1
+            nontriv.add(digest(["collision", ccfg]))
+            try:
+                with warnings.catch_warnings():
+                    warnings.simplefilter("ignore")
+                    crunner._setup()
+                refused = None
+            except ValueError as e:
+                refused = str(e)
+            except Exception as e:
+                refused = None
+                add_v(viol("C18/collision-setup-raised:%s" % type(e).__name__, "a name already in use is reported as an error (ValueError)",
+                           {"error": "%s: %s" % (type(e).__name__, e), "colliding": kind}, cinp))
+                continue
+            if refused is None:
+                csim = crunner.simulator
+                for what, ents in (("market", csim.markets), ("agent", csim.agents), ("session", csim.sessions)):
+                    nms = [e.name for e in ents]
+                    if len(set(nms)) != len(nms):
+                        add_v(viol("C18/duplicate-name-registered:" + what, "entities get unique names; a name already in use is refused",
+                                   {"names": nms, "colliding": kind}, cinp))
         inp = {"kind": "setup", "config": cfg}
         h = digest(["setup", cfg])
         seen.add(h)
@@ -549,6 +598,20 @@ def replay_C18(obj):
             with warnings.catch_warnings():
                 warnings.simplefilter("ignore")
                 SequentialRunner(settings=copy.deepcopy(inp["config"]), prng=random.Random(0))._setup()
+        except Exception as e:
+            out.append({"signature": obj["signature"], "observed": {"error": "%s: %s" % (type(e).__name__, e)}})
+    elif inp["kind"] == "setup-collision":
+        r = SequentialRunner(settings=copy.deepcopy(inp["config"]), prng=random.Random(0))
+        try:
+            with warnings.catch_warnings():
+                warnings.simplefilter("ignore")
+                r._setup()
+            for what, ents in (("market", r.simulator.markets), ("agent", r.simulator.agents), ("session", r.simulator.sessions)):
+                nms = [e.name for e in ents]
+                if len(set(nms)) != len(nms):
+                    out.append({"signature": obj["signature"], "observed": {"names": nms}})
+        except ValueError:
+            pass
         except Exception as e:
             out.append({"signature": obj["signature"], "observed": {"error": "%s: %s" % (type(e).__name__, e)}})
     elif inp["kind"] == "findclass-sequence":
